@@ -64,6 +64,10 @@ CLAIMED = {
   text="Proof over all schedules via two lock-style monitors plus per-function contracts. Monitor timerMu (sessionInfo.timerMu): in every critical section (startPOST, endPOST, stopTimer) the in-flight POST count stays >= 0, a stopped timer stays stopped and is never replaced, and the idle timer is never armed while a POST is in flight (ghost attribute armed, set by AfterFunc/Reset, cleared by Stop); lock discipline for refs/timer by a flow analysis. Monitor hmu (StreamableHTTPHandler.mu): every table entry is a session; the table is touched only under the lock (so the stateless path never touches it). Contracts (all inputs): lookupSession (id not in table => 404; user-bound session and absent/different user => 403; proceeds only for the owner, with exactly the table entry), stateful DELETE/GET/POST (only a request let through by lookupSession reaches the session or closes it; POST with an id is counted in flight exactly while served and mints nothing; ids minted only without one), onClose hook (closed session is removed from the table and its timer stopped), serveStateless (non-POST => 405, no id read or minted, temporary session closed).",
   note="Trusted: A-TIMER (a timer's function runs only while armed; Stop disarms, Reset/AfterFunc arm), fewer than 2^62 POSTs in flight, serveStatefulPOST initialises sessionInfo before publishing it (unpublished exemption), http.Error/Header.Get/Values/mime specs, auth.TokenInfoFromContext and ServerSession.Close/ServeHTTP opaque (tracked), code called while a lock is held does not re-enter it. Not decided: that session.Close always runs onClose (ServerSession.Close is outside the contracts), wall-clock behaviour of the timer, the race where the timer fires just before startPOST stops it, duplicate ids from a user-supplied GetSessionID, endPOST's 'negative ref count' panic (needs call-pairing history).",
   ref="DESIGN.md 10/C11"),
+ "C18": dict(
+  text="Proof over all schedules via the lock-style monitor on Server.mu (debounce timers, subscription tables, session list; every function that locks it is a verified critical-section unit, lock discipline by flow analysis) plus contracts: changeAndNotify - the change runs once under the lock; if it changed something, the capability is on and a session is connected, then at unlock a debounce timer for that kind exists and is armed (created or re-armed after the change), and nothing is scheduled without a change or with the capability off; shouldSendListChangedNotification - exact capability gate; notifySessions - the timer slot is cleared in the same critical section that reads the recipients, the lock is released before notifying, legacy sessions and a clone of exactly this kind's subscribers are notified; ResourceUpdated - only sessions subscribed to that URI at the time of the read are notified (loop invariants), modern ones with their own request id; subscribe/unsubscribe - exactly that (uri, session) pair is recorded/removed, other sessions and URIs untouched, an entry is dropped only when empty; disconnect - the session is removed from every table (loop invariant over the per-URI tables); client handlers - the session's cached answers are dropped before the application handler is called.",
+  note="Trusted: A-TIMER (see C11), maps.Clone/slices.DeleteFunc/Logger frames, change callbacks and user handlers modelled as arbitrary code that does not touch lock-protected state (justified for module code by the discipline obligation), subscriptionsListen's critical sections (trust-section: defer inside a loop is outside the engine), InitializeParams pure. Not decided: that the armed timer eventually fires and notifySessions delivers (liveness), which sessions are 'legacy' in notifySessions' loop, completeness half of ResourceUpdated (every subscriber is in one of the two lists), the client TTL cache itself (generic methodCache: get/put expiry), identity of the cache that is dropped (no address-of in the contract language).",
+  ref="DESIGN.md 10/C18"),
 }
 
 NOT_YET = "contracts not completed yet (build in progress; see DESIGN.md section 12)"
